@@ -221,19 +221,30 @@ class LocalStorageBackend(StorageBackend):
 
         return full_path
 
-    def read_file(self, path: str) -> bytes:
+    def _resolve_file(self, path: str) -> str:
+        """Resolve `path` for an operation on a FILE. A directory of that name
+        is not a file of that name: same answer as for a missing file (and as
+        the S3 backend, where only exact keys exist) instead of
+        IsADirectoryError - or, for get_size / get_modified_time, an answer
+        about the directory."""
         full_path = self._resolve_path(path)
+        if os.path.isdir(full_path):
+            raise FileNotFoundError(f"No such file (it is a directory): {full_path}")
+        return full_path
+
+    def read_file(self, path: str) -> bytes:
+        full_path = self._resolve_file(path)
         with open(full_path, "rb") as f:
             return f.read()
 
     def open_file(self, path: str) -> Any:
         """Open local file for reading as a stream."""
-        full_path = self._resolve_path(path)
+        full_path = self._resolve_file(path)
         return open(full_path, "rb")
 
     def open_seekable(self, path: str) -> Any:
         """Local files are already seekable; nothing to wrap."""
-        return open(self._resolve_path(path), "rb")
+        return open(self._resolve_file(path), "rb")
 
     def make_durable(self, path: str, synced_dirs: Optional[set] = None) -> None:
         """fsync an existing file and every directory from its parent up to the
@@ -446,6 +457,8 @@ class LocalStorageBackend(StorageBackend):
 
     def delete_file(self, path: str) -> None:
         full_path = self._resolve_path(path)
+        if os.path.isdir(full_path):
+            return  # no FILE of that name (deleting an absent key is a no-op)
         if os.path.exists(full_path):
             os.remove(full_path)
 
@@ -454,11 +467,11 @@ class LocalStorageBackend(StorageBackend):
         os.makedirs(full_path, exist_ok=exist_ok)
 
     def get_size(self, path: str) -> int:
-        full_path = self._resolve_path(path)
+        full_path = self._resolve_file(path)
         return os.path.getsize(full_path)
 
     def get_modified_time(self, path: str) -> float:
-        full_path = self._resolve_path(path)
+        full_path = self._resolve_file(path)
         return os.path.getmtime(full_path)
 
     def create_lock(self, path: str, timeout: float = 30.0) -> "LockProvider":
